@@ -36,8 +36,10 @@ CdfMonotone == \A i \in 1..N : Ev.F[i + 1] >= Ev.F[i] - 1
 CdfRange == Ev.F[1] >= -1 /\ Ev.F[1] <= U \div 1000 /\ Ev.F[N + 1] <= U + U \div 500
 \* the cumulative function is the integral of the density: cell by cell (2 % of the cell + 16 units: trapezium error of a smooth or
 \* cusped unimodal curve on 256 cells) and cumulatively (1.5e-3 of the total)
-CdfIsIntegralCell == \A i \in 1..N : Abs((Ev.F[i + 1] - Ev.F[i]) - Trap(i)) <= 16 + Trap(i) \div 50
-CdfIsIntegralCum == \A i \in {j \in 1..(N + 1) : j % 8 = 1} : Abs((Ev.F[i] - Ev.F[1]) - CumTrap(i)) <= (3 * U) \div 2000
+\* (cell by cell only for densities that are smooth on the scale of a cell: Ev.smooth)
+CdfIsIntegralCell == Ev.smooth => \A i \in 1..N : Abs((Ev.F[i + 1] - Ev.F[i]) - Trap(i)) <= 16 + Trap(i) \div 50
+Stride == IF N <= 256 THEN 8 ELSE N \div 32             \* (33 check points: the running integral is recomputed for each)
+CdfIsIntegralCum == \A i \in {j \in 1..(N + 1) : j % Stride = 1} : Abs((Ev.F[i] - Ev.F[1]) - CumTrap(i)) <= (3 * U) \div 2000
 \* the cumulative function is a function of the point: evaluated one point at a time (Fs = pairs <<index, value>>) it gives what the
 \* array call gave
 CdfPointwise == \A j \in 1..Len(Ev.Fs) : Abs(Ev.Fs[j][2] - Ev.F[Ev.Fs[j][1]]) <= 2 + U \div 100000
@@ -63,6 +65,7 @@ Clauses == << <<"non-negative density", NonNegative>>, <<"cdf non-decreasing", C
               <<"cdf is the integral of the density (cell)", CdfIsIntegralCell>>,
               <<"cdf is the integral of the density (cumulative)", CdfIsIntegralCum>>,
               <<"cdf of a single point equals the array call", CdfPointwise>>,
+              <<"integer-typed evaluation points give the values of the equal floats", Ev.int_ok>>,
               <<"density integrates to one", Normalised>>, <<"mode is a point of maximal density", ModeMaximal>>,
               <<"interval(f) contains probability f", \A j \in 1..Len(Ev.iv) : IntervalMass(j) /\ IntervalOrdered(j)>>,
               <<"interval(f) has equal density at its two ends", \A j \in 1..Len(Ev.iv) : IntervalEnds(j)>>,
